@@ -315,6 +315,62 @@ theorem maxPoint_spec (pts : List (V3 F64.Dy)) (vec : V3 F64.Dy) :
     have := h3 p hp
     rwa [h2] at this
 
+/-- state of the fold of `minPoint` (mirror image of `maxFold_inv`): the best point so far is a listed point, carries its own projection, and bounds the
+projections of every point seen so far -/
+theorem minFold_inv (vec : V3 F64.Dy) (all : List (V3 F64.Dy)) : ∀ (l seen : List (V3 F64.Dy)) (acc : V3 F64.Dy × F64.Dy),
+    acc.1 ∈ all → acc.2 = acc.1.dot vec → (∀ p ∈ seen, val acc.2 ≤ val (p.dot vec)) → (∀ p ∈ l, p ∈ all) →
+    let r := l.foldl (fun (acc : V3 F64.Dy × F64.Dy) p => let v := p.dot vec; if F64.lt v acc.2 then (p, v) else acc) acc
+    r.1 ∈ all ∧ r.2 = r.1.dot vec ∧ ∀ p ∈ seen ++ l, val r.2 ≤ val (p.dot vec) := by
+  intro l
+  induction l with
+  | nil => intro seen acc h1 h2 h3 _; simpa using ⟨h1, h2, h3⟩
+  | cons q l ih =>
+    intro seen acc h1 h2 h3 h4
+    simp only [List.foldl_cons]
+    by_cases hlt : F64.lt (q.dot vec) acc.2 = true
+    · simp only [hlt, if_true]
+      have hv := (lt_iff_val _ _).mp hlt
+      have := ih (seen ++ [q]) (q, q.dot vec) (h4 q List.mem_cons_self) rfl
+        (by
+          intro p hp
+          rcases List.mem_append.mp hp with hp | hp
+          · exact le_trans (le_of_lt hv) (h3 p hp)
+          · rw [List.mem_singleton] at hp; subst hp; exact le_refl _)
+        (fun p hp => h4 p (List.mem_cons_of_mem _ hp))
+      simpa [List.append_assoc] using this
+    · have hf : F64.lt (q.dot vec) acc.2 = false := by cases h : F64.lt (q.dot vec) acc.2 <;> simp_all
+      simp only [hf, Bool.false_eq_true, if_false]
+      have hv : val acc.2 ≤ val (q.dot vec) := by
+        by_contra hc
+        exact hlt ((lt_iff_val _ _).mpr (not_le.mp hc))
+      have := ih (seen ++ [q]) acc h1 h2
+        (by
+          intro p hp
+          rcases List.mem_append.mp hp with hp | hp
+          · exact h3 p hp
+          · rw [List.mem_singleton] at hp; subst hp; exact hv)
+        (fun p hp => h4 p (List.mem_cons_of_mem _ hp))
+      simpa [List.append_assoc] using this
+
+/-- **minPoint_spec**: `MinPoint` rejects exactly the empty list, and otherwise returns a listed point whose projection on
+`vec` (as computed in binary64) is at most that of every listed point -/
+theorem minPoint_spec (pts : List (V3 F64.Dy)) (vec : V3 F64.Dy) :
+    (minPoint pts vec = none ↔ pts = []) ∧
+    ∀ r, minPoint pts vec = some r → r ∈ pts ∧ ∀ p ∈ pts, val (r.dot vec) ≤ val (p.dot vec) := by
+  cases pts with
+  | nil => simp [minPoint]
+  | cons p0 rest =>
+    refine ⟨by simp [minPoint], ?_⟩
+    intro r hr
+    simp only [minPoint, Option.some.injEq] at hr
+    have := minFold_inv vec (p0 :: rest) (p0 :: rest) [] (p0, p0.dot vec) List.mem_cons_self rfl (by simp) (fun p hp => hp)
+    simp only [List.nil_append] at this
+    obtain ⟨h1, h2, h3⟩ := this
+    rw [hr] at h1 h2
+    refine ⟨h1, fun p hp => ?_⟩
+    have := h3 p hp
+    rwa [h2] at this
+
 end maxpoint
 
 end SpatialId.C20Vec
